@@ -114,23 +114,26 @@ SortByExp(data) ==
         Srt(i) == IF i = 0 THEN << >> ELSE Ins(Srt(i - 1), data[i])
     IN Srt(Len(data))
 
-\* pymbolic.polynomial._sort_uniq as the code has it.  Note what happens after a
-\* cancellation: the entry is popped but last_exp is kept, so a further entry with
-\* the same exponent is merged into whatever entry is now last (Dev_PopKeepsLastExp);
-\* "hit" records that this path was taken, "ierr" that uniq_result was empty (IndexError).
+\* pymbolic.polynomial._sort_uniq as the code has it: entries with the same exponent are added
+\* up; when a sum cancels the entry is popped and last_exp is reset, so that a further entry
+\* with the same exponent starts a new entry.  (Historical Dev_PopKeepsLastExp, C19-F3,
+\* repaired: last_exp was kept and the further entry was merged into whatever entry was then
+\* last.)  "hit" records that this path - a further entry on an exponent whose entry has just
+\* been popped - was taken: the attribution of a regression; "ierr" that uniq_result was empty
+\* when an entry was to be merged (IndexError; unreachable in the code as it is).
 SortUniqT(data) ==
     LET s == SortByExp(data)
         RECURSIVE Go(_, _, _, _, _)
-        Go(i, acc, last, popped, st) ==
+        \* last: last_exp (-1 for None); pe: the exponent whose entry has just been popped (-1: none)
+        Go(i, acc, last, pe, st) ==
             IF i > Len(s) \/ st.ierr THEN [d |-> acc, hit |-> st.hit, ierr |-> st.ierr]
             ELSE IF last = s[i].e
-                 THEN IF Len(acc) = 0 THEN Go(i + 1, acc, last, popped, [hit |-> TRUE, ierr |-> TRUE])
-                      ELSE LET nc == VAdd(acc[Len(acc)].c, s[i].c)
-                               st2 == [hit |-> st.hit \/ popped, ierr |-> FALSE] IN
-                           IF IsZeroV(nc) THEN Go(i + 1, SubSeq(acc, 1, Len(acc) - 1), last, TRUE, st2)
-                           ELSE Go(i + 1, [acc EXCEPT ![Len(acc)] = Ent(last, nc)], last, popped, st2)
-                 ELSE Go(i + 1, Append(acc, s[i]), s[i].e, FALSE, st)
-    IN  Go(1, << >>, -1, FALSE, [hit |-> FALSE, ierr |-> FALSE])
+                 THEN IF Len(acc) = 0 THEN Go(i + 1, acc, last, pe, [hit |-> TRUE, ierr |-> TRUE])
+                      ELSE LET nc == VAdd(acc[Len(acc)].c, s[i].c) IN
+                           IF IsZeroV(nc) THEN Go(i + 1, SubSeq(acc, 1, Len(acc) - 1), -1, last, st)
+                           ELSE Go(i + 1, [acc EXCEPT ![Len(acc)] = Ent(last, nc)], last, pe, st)
+                 ELSE Go(i + 1, Append(acc, s[i]), s[i].e, -1, [st EXCEPT !.hit = st.hit \/ (pe = s[i].e)])
+    IN  Go(1, << >>, -1, -1, [hit |-> FALSE, ierr |-> FALSE])
 SortUniq(data) == SortUniqT(data).d
 
 \* all partial products, "for s in self.Data: for o in other.Data"
@@ -159,8 +162,9 @@ ImplAdd(sd, od) ==
 ImplAddScalar(sd, v) == IF IsZeroV(v) THEN sd ELSE ImplAdd(sd, << Ent(0, v) >>)
 ImplSub(sd, od) == ImplAdd(sd, ImplNeg(od))
 ImplSubScalar(sd, v) == ImplAddScalar(sd, VNeg(v))
-\* __rsub__(self, other) == (-other) + self        (Dev_RsubSign: this is self - other)
-ImplRSubScalar(sd, v) == ImplAddScalar(sd, VNeg(v))
+\* __rsub__(self, other) == (-self) + other   (historical Dev_RsubSign, C19-F2, repaired: it
+\* was (-other) + self, i.e. self - other)
+ImplRSubScalar(sd, v) == ImplAddScalar(ImplNeg(sd), v)
 \* scalar products keep zero coefficients
 ImplMulScalar(sd, v) == [i \in 1..Len(sd) |-> Ent(sd[i].e, VMul(sd[i].c, v))]
 \* integer_power(self, k, Polynomial(base, ((0, 1),)))
